@@ -124,6 +124,9 @@ CacheFacts.vos CacheFacts.vok CacheFacts.required_vos: CacheFacts.v Graph.vos Gr
 Greedy.vo Greedy.glob Greedy.v.beautified Greedy.required_vo: Greedy.v Graph.vo Sched.vo
 Greedy.vio: Greedy.v Graph.vio Sched.vio
 Greedy.vos Greedy.vok Greedy.required_vos: Greedy.v Graph.vos Sched.vos
+GreedyFacts.vo GreedyFacts.glob GreedyFacts.v.beautified GreedyFacts.required_vo: GreedyFacts.v Graph.vo GraphFacts.vo Sched.vo SchedInv.vo SchedGhost.vo SchedPrio.vo Greedy.vo
+GreedyFacts.vio: GreedyFacts.v Graph.vio GraphFacts.vio Sched.vio SchedInv.vio SchedGhost.vio SchedPrio.vio Greedy.vio
+GreedyFacts.vos GreedyFacts.vok GreedyFacts.required_vos: GreedyFacts.v Graph.vos GraphFacts.vos Sched.vos SchedInv.vos SchedGhost.vos SchedPrio.vos Greedy.vos
 Concurrent.vo Concurrent.glob Concurrent.v.beautified Concurrent.required_vo: Concurrent.v Graph.vo Sched.vo Dataflow.vo
 Concurrent.vio: Concurrent.v Graph.vio Sched.vio Dataflow.vio
 Concurrent.vos Concurrent.vok Concurrent.required_vos: Concurrent.v Graph.vos Sched.vos Dataflow.vos
@@ -148,9 +151,9 @@ Properties/C05.vos Properties/C05.vok Properties/C05.required_vos: Properties/C0
 Properties/C06.vo Properties/C06.glob Properties/C06.v.beautified Properties/C06.required_vo: Properties/C06.v Graph.vo Sched.vo SchedInv.vo SchedPrio.vo
 Properties/C06.vio: Properties/C06.v Graph.vio Sched.vio SchedInv.vio SchedPrio.vio
 Properties/C06.vos Properties/C06.vok Properties/C06.required_vos: Properties/C06.v Graph.vos Sched.vos SchedInv.vos SchedPrio.vos
-Properties/C07.vo Properties/C07.glob Properties/C07.v.beautified Properties/C07.required_vo: Properties/C07.v Graph.vo Closure.vo Priority.vo PriorityFacts.vo Sched.vo SchedInv.vo SchedPrio.vo Reconf.vo ReconfFacts.vo
-Properties/C07.vio: Properties/C07.v Graph.vio Closure.vio Priority.vio PriorityFacts.vio Sched.vio SchedInv.vio SchedPrio.vio Reconf.vio ReconfFacts.vio
-Properties/C07.vos Properties/C07.vok Properties/C07.required_vos: Properties/C07.v Graph.vos Closure.vos Priority.vos PriorityFacts.vos Sched.vos SchedInv.vos SchedPrio.vos Reconf.vos ReconfFacts.vos
+Properties/C07.vo Properties/C07.glob Properties/C07.v.beautified Properties/C07.required_vo: Properties/C07.v Graph.vo Closure.vo Priority.vo PriorityFacts.vo Sched.vo SchedInv.vo SchedPrio.vo Reconf.vo ReconfFacts.vo Greedy.vo GreedyFacts.vo
+Properties/C07.vio: Properties/C07.v Graph.vio Closure.vio Priority.vio PriorityFacts.vio Sched.vio SchedInv.vio SchedPrio.vio Reconf.vio ReconfFacts.vio Greedy.vio GreedyFacts.vio
+Properties/C07.vos Properties/C07.vok Properties/C07.required_vos: Properties/C07.v Graph.vos Closure.vos Priority.vos PriorityFacts.vos Sched.vos SchedInv.vos SchedPrio.vos Reconf.vos ReconfFacts.vos Greedy.vos GreedyFacts.vos
 Properties/C08.vo Properties/C08.glob Properties/C08.v.beautified Properties/C08.required_vo: Properties/C08.v Graph.vo Sched.vo SchedInv.vo SchedPrio.vo Reconf.vo ReconfFacts.vo
 Properties/C08.vio: Properties/C08.v Graph.vio Sched.vio SchedInv.vio SchedPrio.vio Reconf.vio ReconfFacts.vio
 Properties/C08.vos Properties/C08.vok Properties/C08.required_vos: Properties/C08.v Graph.vos Sched.vos SchedInv.vos SchedPrio.vos Reconf.vos ReconfFacts.vos
